@@ -57,6 +57,31 @@ impl RegState {
             self.fifo[a as usize] = prior_byte(seed, 0x100 + a);
         }
     }
+    /// NRESET / power-on: every register back to its datasheet reset value (SX1276/77/78/79 rev. 7
+    /// table 41, SX1272/73 rev. 4 table 84; LoRa page for 0x0D-0x3F, which is the page both
+    /// drivers use once LongRangeMode is set), FSK/OOK mode, standby. The traffic logs are kept.
+    pub fn chip_reset(&mut self, is_1276: bool) {
+        self.regs = [0; 128];
+        self.fifo = [0; 256];
+        let defaults: &[(u8, u8)] = if is_1276 {
+            &[(0x01, 0x09), (0x06, 0x6C), (0x07, 0x80), (0x08, 0x00), (0x09, 0x4F), (0x0A, 0x09), (0x0B, 0x2B), (0x0C, 0x20), (0x0E, 0x80), (0x1D, 0x72), (0x1E, 0x70), (0x1F, 0x64), (0x21, 0x08), (0x22, 0x01), (0x23, 0xFF), (0x31, 0xC3), (0x33, 0x27), (0x36, 0x03), (0x37, 0x0A), (0x39, 0x12), (0x3A, 0x20), (0x3B, 0x1D), (0x42, 0x12), (0x4B, 0x09), (0x4D, 0x84)]
+        } else {
+            &[(0x01, 0x01), (0x06, 0xE4), (0x07, 0xC0), (0x08, 0x00), (0x09, 0x0F), (0x0A, 0x19), (0x0B, 0x2B), (0x0C, 0x20), (0x0E, 0x80), (0x1D, 0x08), (0x1E, 0x70), (0x1F, 0x64), (0x21, 0x08), (0x22, 0x01), (0x23, 0xFF), (0x31, 0xC3), (0x33, 0x27), (0x37, 0x0A), (0x39, 0x12), (0x3B, 0x1D), (0x42, 0x22), (0x58, 0x09), (0x5A, 0x84)]
+        };
+        for (a, v) in defaults {
+            self.regs[*a as usize] = *v;
+        }
+    }
+    /// Forget the traffic logs (between the steps of a history); chip contents stay.
+    pub fn clear_logs(&mut self) {
+        self.fifo_writes.clear();
+        self.opmodes.clear();
+        self.irq_clears.clear();
+        self.writes.clear();
+        self.reads.clear();
+        self.protocol_errors.clear();
+        self.transactions = 0;
+    }
     fn write_reg(&mut self, addr: u8, v: u8) {
         let addr = addr & 0x7F;
         self.writes.push((addr, v));
@@ -179,6 +204,12 @@ impl Reg127 {
     }
     pub fn get(&self, addr: u8) -> u8 {
         self.0.borrow().regs[addr as usize & 0x7F]
+    }
+    pub fn chip_reset(&self, is_1276: bool) {
+        self.0.borrow_mut().chip_reset(is_1276);
+    }
+    pub fn clear_logs(&self) {
+        self.0.borrow_mut().clear_logs();
     }
 }
 
